@@ -28,7 +28,7 @@ from collada.common import DaeIncompleteError, DaeBrokenRefError, \
     DaeMalformedError, DaeUnsupportedError
 from collada.util import falmostEqual
 from collada.util import _correctValInNode
-from collada.util import _syncChildren
+from collada.util import _syncChildren, _setAttribute
 
 try:
     from PIL import Image as pil
@@ -167,8 +167,8 @@ class CImage(DaeObject):
     def save(self):
         """Saves the image back to :attr:`xmlnode`. Only the :attr:`id` attribute is saved.
         The image itself will have to be saved to its original source to make modifications."""
-        self.xmlnode.set('id', self.id)
-        self.xmlnode.set('name', self.id)
+        _setAttribute(self.xmlnode, 'id', self.id)
+        _setAttribute(self.xmlnode, 'name', self.id)
         initnode = self.xmlnode.find(tag('init_from'))
         initnode.text = self.path
 
@@ -253,7 +253,7 @@ class Surface(DaeObject):
             else:
                 formatnode.text = self.format
         initnode.text = self.image.id
-        self.xmlnode.set('sid', self.id)
+        _setAttribute(self.xmlnode, 'sid', self.id)
 
     def __str__(self):
         return '<Surface id=%s>' % (self.id,)
@@ -343,7 +343,7 @@ class Sampler2D(DaeObject):
         _correctValInNode(samplernode, 'minfilter', self.minfilter or None, order)
         _correctValInNode(samplernode, 'magfilter', self.magfilter or None, order)
         sourcenode.text = self.surface.id
-        self.xmlnode.set('sid', self.id)
+        _setAttribute(self.xmlnode, 'sid', self.id)
 
     def __str__(self):
         return '<Sampler2D id=%s>' % (self.id,)
@@ -406,7 +406,7 @@ class Map(DaeObject):
     def save(self):
         """Saves the map back to :attr:`xmlnode`"""
         self.xmlnode.set('texture', self.sampler.id)
-        self.xmlnode.set('texcoord', self.texcoord)
+        _setAttribute(self.xmlnode, 'texcoord', self.texcoord)
 
     def __str__(self):
         return '<Map sampler=%s texcoord=%s>' % (self.sampler.id, self.texcoord)
@@ -735,8 +735,8 @@ class Effect(DaeObject):
 
     def save(self):
         """Saves the effect back to :attr:`xmlnode`"""
-        self.xmlnode.set('id', self.id)
-        self.xmlnode.set('name', self.id)
+        _setAttribute(self.xmlnode, 'id', self.id)
+        _setAttribute(self.xmlnode, 'name', self.id)
         profilenode = self.xmlnode.find(tag('profile_COMMON'))
         tecnode = profilenode.find(tag('technique'))
         tecnode.set('sid', 'common')
